@@ -48,6 +48,10 @@ class C15(Check):
             dict(base, kind="corner:default-set", include=None, world_spec={"files": [f1, f2, {"path": "requirements.txt", "manifest": 0}]}),
             dict(base, kind="corner:default-exclude-list", include=None, exclude=["pixee:python/secure-random"], world_spec={"files": [f1, f2]}),
             dict(base, kind="corner:wildcard", include=["pixee:python/fix-*"], world_spec={"files": [f1, f2]}),
+            # overlapping selections: a codemod matched by two patterns is one executed codemod
+            dict(base, kind="corner:overlapping-patterns", include=["pixee:python/fix-*", "pixee:python/fix-mutable-params"], world_spec={"files": [f1, f2]}),
+            dict(base, kind="corner:overlapping-patterns", include=["pixee:python/remove-unnecessary-f-str", "pixee:python/remove-*"], world_spec={"files": [f1, f2]}),
+            dict(base, kind="corner:overlapping-patterns", include=["*:python/fix-mutable-params", "pixee:python/*-params"], world_spec={"files": [f1, f2]}),
             # one fixed experiment per listed known finding
             dict(base, kind="fixed:assert-tuple-last-statement", include=["pixee:python/fix-assert-tuple"],
                  world_spec={"files": [{"path": "pkg/t.py", "raw": {"t": 'def f():\n    assert (1,)\n\n    assert ("one", Exception, [])\n'}}]}),
